@@ -276,6 +276,200 @@ Plan gen_c03(uint64_t seed, bool th) {
   return g.p;
 }
 
+// ---------------------------------------------------------------- C07: match rules and broadcasts
+
+static const char *kIfaces[] = {"com.example.Iface", "org.test.Other", "com.example.Iface.Sub"};
+static const char *kMembers[] = {"Do", "Get", "Frob"};
+static const char *kPaths[] = {"/", "/com/example/obj", "/com/example/obj/sub", "/com/example/object", "/com/example"};
+static const char *kStrs[] = {"", "a", "/aa/bb/", "/aa/bb/cc", "/aa", "/aa/bb", "/", "com.example.backend1", "com.example.backend1.foo",
+                              "com.example.backend10", "it's", "a,b", "back\\slash", "sp ace", "/aa/bb/cc/"};
+static const int kNStrs = 15;
+
+std::string quote_value(G &g, const std::string &v) {
+  // several spellings of the same value under the specification's quoting rules
+  bool needs_quote = v.empty() || v.find_first_of(",' ") != std::string::npos || v.find('\\') != std::string::npos;
+  int style = (int)g.r.below(needs_quote ? 2 : 3);
+  std::string o;
+  if (style == 2) return v;                     // bare
+  if (style == 0) {                             // one quoted section, apostrophes escaped outside
+    o = "'";
+    for (char c : v) { if (c == '\'') o += "'\\''"; else o += c; }
+    return o + "'";
+  }
+  // alternate: every char: quoted runs split at random points
+  o = "'";
+  for (char c : v) {
+    if (c == '\'') o += "'\\''";
+    else { o += c; if (g.r.pct(20)) o += "''"; }
+  }
+  return o + "'";
+}
+
+std::string gen_rule(G &g, bool *valid_hint) {
+  std::vector<std::string> parts;
+  *valid_hint = true;
+  if (g.r.pct(55)) { static const char *ts[] = {"signal", "method_call", "method_return", "error"}; parts.push_back(std::string("type=") + quote_value(g, g.r.pct(85) ? "signal" : ts[g.r.below(4)])); }
+  if (g.r.pct(25)) parts.push_back("sender=" + quote_value(g, g.r.pct(50) ? "$u" + std::to_string(g.a_client()) : (g.r.pct(50) ? g.a_name() : "org.freedesktop.DBus")));
+  if (g.r.pct(35)) parts.push_back("interface=" + quote_value(g, kIfaces[g.r.below(3)]));
+  if (g.r.pct(35)) parts.push_back("member=" + quote_value(g, kMembers[g.r.below(3)]));
+  int pk = (int)g.r.below(100);
+  if (pk < 25) parts.push_back("path=" + quote_value(g, kPaths[g.r.below(5)]));
+  else if (pk < 45) parts.push_back("path_namespace=" + quote_value(g, kPaths[g.r.below(5)]));
+  if (g.r.pct(10)) parts.push_back("destination=" + quote_value(g, "$u" + std::to_string(g.a_client())));
+  int nargs = g.r.pct(55) ? (int)g.r.range(1, 3) : 0;
+  std::vector<int> used;
+  for (int i = 0; i < nargs; i++) {
+    int n = g.r.pct(80) ? (int)g.r.below(3) : (int)g.r.range(3, 63);
+    bool dup = false;
+    for (int u : used) if (u == n) dup = true;
+    if (dup) continue;
+    used.push_back(n);
+    int kind = (int)g.r.below(100);
+    std::string v = kStrs[g.r.below((uint64_t)kNStrs)];
+    if (kind < 45) parts.push_back("arg" + std::to_string(n) + "=" + quote_value(g, v));
+    else if (kind < 85) parts.push_back("arg" + std::to_string(n) + "path=" + quote_value(g, v));
+    else if (n == 0) { static const char *ns[] = {"com.example", "com.example.backend1", "com", "org.test"}; parts.push_back("arg0namespace=" + quote_value(g, ns[g.r.below(4)])); }
+  }
+  if (g.r.pct(12)) parts.push_back(std::string("eavesdrop=") + quote_value(g, g.r.pct(50) ? "true" : "false"));
+  // order is free
+  for (size_t i = parts.size(); i > 1; i--) std::swap(parts[i - 1], parts[g.r.below(i)]);
+  std::string rule;
+  for (size_t i = 0; i < parts.size(); i++) rule += (i ? "," : "") + parts[i];
+  if (g.r.pct(10)) {
+    // one deliberate defect
+    *valid_hint = false;
+    switch (g.r.below(9)) {
+      case 0: rule += (rule.empty() ? "" : ",") + std::string("arg0='unterminated"); break;
+      case 1: rule += (rule.empty() ? "" : ",") + std::string("bogus='x'"); break;
+      case 2: rule += (rule.empty() ? "" : ",") + std::string("type='broadcast'"); break;
+      case 3: rule += (rule.empty() ? "" : ",") + std::string("arg64='x'"); break;
+      case 4: rule += (rule.empty() ? "" : ",") + std::string("interface='nodots'"); break;
+      case 5: rule += (rule.empty() ? "" : ",") + std::string("argx='1'"); break;
+      case 6: rule = "path='/a',path_namespace='/a'"; break;
+      case 7: rule += (rule.empty() ? "" : ",") + std::string("member"); break;
+      default: rule += (rule.empty() ? "" : ",") + std::string("arg1namespace='a.b'"); break;
+    }
+  }
+  return rule;
+}
+
+Plan gen_c07(uint64_t seed, bool th) {
+  G g(seed, th);
+  g.p.prop = "C07";
+  g.p.seed = seed;
+  base_shape(g, 2, th ? 6 : 5);
+  if (g.r.pct(25)) g.p.cfg["lim.rules"] = std::to_string(g.r.range(1, 4));
+  g.connect_all(false, false);
+  std::vector<std::pair<int, std::string>> added;
+  int nops = (int)g.r.range(8, th ? 70 : 32);
+  for (int i = 0; i < nops; i++) {
+    int c = g.a_client();
+    int x = (int)g.r.below(100);
+    if (x < 30) {
+      bool vh;
+      std::string rule = gen_rule(g, &vh);
+      g.add(g.mk("addmatch", c, {g.deliver_mode()}, {rule}));
+      if (vh) added.push_back({c, rule});
+    } else if (x < 40) {
+      if (!added.empty() && g.r.pct(75)) {
+        size_t k = g.r.below(added.size());
+        g.add(g.mk("rmmatch", g.r.pct(85) ? added[k].first : c, {g.deliver_mode()}, {added[k].second}));
+        if (g.r.pct(70)) added.erase(added.begin() + (long)k);
+      } else {
+        bool vh;
+        g.add(g.mk("rmmatch", c, {g.deliver_mode()}, {gen_rule(g, &vh)}));
+      }
+    } else if (x < 85) {
+      // a broadcast signal built from the same vocabulary
+      std::vector<std::string> s = {"", kPaths[g.r.below(5)], kIfaces[g.r.below(3)], kMembers[g.r.below(3)], "", ""};
+      int na = (int)g.r.below(4);
+      for (int k = 0; k < na; k++) {
+        int tk = (int)g.r.below(100);
+        std::string v = kStrs[g.r.below((uint64_t)kNStrs)];
+        if (tk < 60) s.push_back("s:" + v);
+        else if (tk < 80) s.push_back(std::string("o:") + (v.size() && v[0] == '/' && v.find("//") == std::string::npos && (v.size() == 1 || v.back() != '/') ? v : kPaths[g.r.below(5)]));
+        else if (tk < 90) s.push_back("u:" + std::to_string(g.r.below(10)));
+        else s.push_back("r:" + std::to_string(g.r.below(100000)));
+      }
+      int64_t be = g.r.pct(15);
+      g.add(g.mk("send", c, {4, 0, g.deliver_mode(), 0, 0, 0, be, g.r.pct(20) ? (int64_t)g.r.range(1, 999) : 0}, s));
+    } else if (x < 90) {
+      std::string name = g.a_name();
+      if (g.r.pct(70)) g.add(g.mk("reqname", c, {(int64_t)g.r.below(8), -1}, {name}));
+      else g.add(g.mk("relname", c, {-1}, {name}));
+    } else if (x < 94) {
+      g.add(g.mk("close", c));
+    } else if (x < 97) {
+      // a unicast message: only eavesdropping rules may see it
+      g.add(g.mk("send", c, {1, 0, -1}, {"$u" + std::to_string(g.a_client()), kPaths[g.r.below(5)], kIfaces[g.r.below(3)], kMembers[g.r.below(3)], "", "", "s:" + std::string(kStrs[g.r.below((uint64_t)kNStrs)])}));
+    } else {
+      int ni = g.sh.nclients++;
+      g.add(g.mk("connect", ni, {0, 0, 1000 + ni, 0, 0}));
+      g.add(g.mk("auth", ni, {1}));
+      g.add(g.mk("hello", ni, {-1}));
+    }
+    g.pump();
+    if (g.r.pct(10)) g.add(g.mk("check"));
+  }
+  return g.p;
+}
+
+// ---------------------------------------------------------------- C13: limits
+
+Plan gen_c13(uint64_t seed, bool th) {
+  G g(seed, th);
+  g.p.prop = "C13";
+  g.p.seed = seed;
+  base_shape(g, 2, 4);
+  // a random subset of limits, each small
+  if (g.r.pct(45)) g.p.cfg["lim.completed"] = std::to_string(g.r.range(1, 5));
+  if (g.r.pct(45)) g.p.cfg["lim.per_user"] = std::to_string(g.r.range(1, 3));
+  if (g.r.pct(35)) g.p.cfg["lim.incomplete"] = std::to_string(g.r.range(1, 3));
+  if (g.r.pct(45)) g.p.cfg["lim.names"] = std::to_string(g.r.range(1, 4));
+  if (g.r.pct(45)) g.p.cfg["lim.rules"] = std::to_string(g.r.range(1, 4));
+  if (g.r.pct(45)) g.p.cfg["lim.replies"] = std::to_string(g.r.range(1, 3));
+  if (g.r.pct(30)) g.p.cfg["lim.msgsize"] = std::to_string(g.r.range(300, 2000));
+  g.sh.uids = {0, 1000, 1001};
+  if (g.r.pct(50)) g.sh.uids = {1000, 1000, 1001};
+  int next = 0;
+  auto connect = [&](bool hello) {
+    int ni = next++;
+    unsigned uid = g.sh.uids[g.r.below(g.sh.uids.size())];
+    g.add(g.mk("connect", ni, {(int64_t)uid, (int64_t)uid, 1000 + ni, 0, 0}));
+    if (g.r.pct(90)) g.add(g.mk("auth", ni, {1}));
+    if (hello) g.add(g.mk("hello", ni, {-1}));
+    g.sh.nclients = next;
+  };
+  for (int i = 0; i < g.sh.nclients; i++) { connect(true); g.add(g.bus_step(3)); g.add(g.mk("drain", i)); }
+  g.add(g.mk("check"));
+  int nops = (int)g.r.range(10, th ? 80 : 36);
+  std::vector<std::string> rules = {"type='signal'", "member='Do'", "interface='com.example.Iface'", "path='/'", "arg0='a'", "type='signal',member='Get'"};
+  for (int i = 0; i < nops; i++) {
+    int c = g.a_client();
+    int x = (int)g.r.below(100);
+    if (x < 14) connect(g.r.pct(80));
+    else if (x < 22) g.add(g.mk("hello", c, {-1}));                         // retry after a refused Hello (or a second Hello)
+    else if (x < 32) g.add(g.mk("close", c));
+    else if (x < 47) g.add(g.mk("reqname", c, {(int64_t)g.r.below(8), -1}, {g.a_name()}));
+    else if (x < 54) g.add(g.mk("relname", c, {-1}, {g.a_name()}));
+    else if (x < 66) g.add(g.mk("addmatch", c, {-1}, {rules[g.r.below(rules.size())]}));
+    else if (x < 72) g.add(g.mk("rmmatch", c, {-1}, {rules[g.r.below(rules.size())]}));
+    else if (x < 86) {
+      // calls that stay unanswered for a while: they occupy reply slots
+      std::vector<std::string> s = {"$u" + std::to_string(g.a_client()), "/", "com.example.Iface", "Do", "", ""};
+      if (g.r.pct(12)) s.push_back("s:" + std::string((size_t)g.r.range(200, 2500), 'x'));   // around the size limit
+      g.add(g.mk("send", c, {1, g.r.pct(15) ? 1 : 0, -1}, s));
+    } else if (x < 94) g.add(g.mk("reply", c, {(int64_t)g.r.below(4), (int64_t)g.r.below(2), -1}));
+    else {
+      std::vector<std::string> s = {"", "/", "com.example.Iface", "Do", "", "", "s:" + std::string((size_t)g.r.range(100, 2500), 'y')};
+      g.add(g.mk("send", c, {4, 0, -1}, s));
+    }
+    g.pump();
+    if (g.r.pct(12)) g.add(g.mk("check"));
+  }
+  return g.p;
+}
+
 }  // namespace
 
 Plan generate(const std::string &prop, uint64_t seed, bool thorough) {
@@ -283,6 +477,8 @@ Plan generate(const std::string &prop, uint64_t seed, bool thorough) {
   if (prop == "C03") return gen_c03(seed, thorough);
   if (prop == "C04") return gen_c04(seed, thorough);
   if (prop == "C05") return gen_c05(seed, thorough);
+  if (prop == "C07") return gen_c07(seed, thorough);
+  if (prop == "C13") return gen_c13(seed, thorough);
   core::harness_error("no generator for property %s", prop.c_str());
 }
 
